@@ -168,6 +168,89 @@ def _quote_tokens(e, fn, depth=0):
     return None
 
 
+def _flat_pat_names(p):
+    """names of a closure parameter pattern in source order: `((a, b), c)` -> [a, b, c]"""
+    k = A.kind(p)
+    if k in ("Pat::Paren", "Pat::Reference", "Pat::Type"):
+        return _flat_pat_names(p["pat"])
+    if k == "Pat::Tuple":
+        out = []
+        for e in p["elems"]:
+            out += _flat_pat_names(e)
+        return out
+    if k == "Pat::Ident":
+        return [p["ident"]["sym"]]
+    return [None]
+
+
+def _iter_sources(e):
+    """`a.iter().zip(b.iter()).zip(c)` -> [a, b, c] (None when something else is iterated)"""
+    e = A.peel(e)
+    if A.kind(e) == "Expr::MethodCall":
+        m = e["method"]["sym"]
+        if m in ("iter", "into_iter", "cloned", "copied", "by_ref") and not e["args"]:
+            return _iter_sources(e["receiver"])
+        if m == "zip" and len(e["args"]) == 1:
+            l, r = _iter_sources(e["receiver"]), _iter_sources(e["args"][0])
+            return l + r if l is not None and r is not None else None
+        return None
+    nm = A.path_str(e) if A.kind(e) == "Expr::Path" else None
+    return [nm] if nm and "::" not in nm else None
+
+
+def _joined_rep(b, var_node, fn):
+    """`let v: Punctuated<_, Comma> = xs.iter().map(|x| quote! { #x: #x }).collect();` interpolated as `#v` is the
+    repetition `#( #xs: #xs ),*`: returned as a `rep` node (None when the binding is not such a join)"""
+    init = b["init"]
+    ann = A.expr_text(fn.file, b["pat"]["ty"]) if A.kind(b["pat"]) == "Pat::Type" else ""
+    e = A.peel(init)
+    if A.kind(e) != "Expr::MethodCall" or e["method"]["sym"] != "collect":
+        return None
+    tf = A.expr_text(fn.file, e["turbofish"]) if e.get("turbofish") else ""
+    ty = ann + tf
+    if "Punctuated" not in ty or not ("Comma" in ty or "Token![,]" in ty.replace(" ", "")):
+        return None
+    r = A.peel(e["receiver"])
+    body = None
+    if A.kind(r) == "Expr::MethodCall" and r["method"]["sym"] == "map" and len(r["args"]) == 1 and A.kind(r["args"][0]) == "Expr::Closure":
+        cl = r["args"][0]
+        srcs = _iter_sources(r["receiver"])
+        if srcs is None or len(cl["inputs"]) != 1:
+            return None
+        names = _flat_pat_names(cl["inputs"][0])
+        if len(names) != len(srcs) or None in names:
+            return None
+        cb = cl["body"]
+        if A.kind(cb) == "Expr::Block" and len(cb["block"]["stmts"]) == 1 and A.kind(cb["block"]["stmts"][0]) == "Stmt::Expr":
+            cb = cb["block"]["stmts"][0]["0"]
+        if A.kind(cb) != "Expr::Macro" or A.path_last(cb["mac"]["path"]) != "quote":
+            return None
+        ren = dict(zip(names, srcs))
+
+        def rename(ir):
+            out = []
+            for x in ir:
+                if x["t"] == "var" and x["s"] in ren:
+                    y = dict(x)
+                    y["s"] = ren[x["s"]]
+                    out.append(y)
+                elif x["t"] in ("grp", "rep"):
+                    y = dict(x)
+                    y["body"] = rename(x["body"])
+                    out.append(y)
+                else:
+                    out.append(x)
+            return out
+
+        body = rename(to_ir(cb["mac"]["tokens"]))
+    else:
+        srcs = _iter_sources(r)
+        if srcs is None or len(srcs) != 1:
+            return None
+        body = [{"t": "var", "s": srcs[0], "span": var_node["span"]}]
+    return {"t": "rep", "body": body, "sep": ",", "span": var_node["span"]}
+
+
 def compose(fn, ir, depth=0, in_rep=False):
     """Inline hoisted sub-templates: an interpolation `#v` whose binding is `let v = quote! { .. };` (possibly through
     `.clone()` / another such alias) is replaced by that template's tokens, recursively. The spliced nodes keep their own
@@ -184,6 +267,10 @@ def compose(fn, ir, depth=0, in_rep=False):
                 toks = _quote_tokens(b["init"], fn)
             if toks is not None:
                 out.extend(compose(fn, to_ir(toks), depth + 1, in_rep))
+                continue
+            rep = _joined_rep(b, x, fn) if b and b["kind"] == "let" and b.get("init") is not None else None
+            if rep is not None:
+                out.append(rep)
                 continue
             out.append(x)
         elif t == "grp":
@@ -241,6 +328,11 @@ def _builder_ops(fn, var, stmts, start, depth=0):
                         # `ts.extend(other_stream)`: the other stream spliced as a whole
                         sp = A.span_of(a)
                         out.append({"t": "var", "s": A.path_str(a), "span": list(sp) if sp else [0, 0]})
+                        continue
+                    if A.kind(a) in ("Expr::MethodCall", "Expr::Call", "Expr::Field"):
+                        # `ts.extend(self.lifetime())`: the value of that expression spliced as a whole
+                        sp = A.span_of(a)
+                        out.append({"t": "var", "s": A.render(a), "span": list(sp) if sp else [0, 0]})
                         continue
                     return None
                 out.extend(compose(fn, to_ir(toks)))
